@@ -23,11 +23,11 @@ func (g *Graph) StronglyConnected() [][]Vertex {
 	vs := g.Vertices()
 	acct := sccAcct{
 		NextIndex:   1,
-		VertexIndex: make(map[Vertex]int, len(vs)),
+		VertexIndex: make(map[interface{}]int, len(vs)),
 	}
 	for _, v := range vs {
 		// Recurse on any non-visited nodes
-		if acct.VertexIndex[v] == 0 {
+		if acct.VertexIndex[hashcode(v)] == 0 {
 			stronglyConnected(&acct, g, v)
 		}
 	}
@@ -40,7 +40,7 @@ func stronglyConnected(acct *sccAcct, g *Graph, v Vertex) int {
 	minIdx := index
 
 	for _, target := range g.OutEdges(v) {
-		targetIdx := acct.VertexIndex[target]
+		targetIdx := acct.VertexIndex[hashcode(target)]
 
 		// Recurse on successor if not yet visited
 		if targetIdx == 0 {
@@ -58,7 +58,7 @@ func stronglyConnected(acct *sccAcct, g *Graph, v Vertex) int {
 		for {
 			v2 := acct.pop()
 			scc = append(scc, v2)
-			if v2 == v {
+			if hashcode(v2) == hashcode(v) {
 				break
 			}
 		}
@@ -77,10 +77,12 @@ func min(a, b int) int {
 }
 
 // sccAcct is used ot pass around accounting information for
-// the StronglyConnectedComponents algorithm
+// the StronglyConnectedComponents algorithm. Vertices are identified by
+// their hashcode, like everywhere else in the graph: the vertex values
+// themselves do not have to be comparable.
 type sccAcct struct {
 	NextIndex   int
-	VertexIndex map[Vertex]int
+	VertexIndex map[interface{}]int
 	Stack       []Vertex
 	SCC         [][]Vertex
 }
@@ -88,7 +90,7 @@ type sccAcct struct {
 // visit assigns an index and pushes a vertex onto the stack
 func (s *sccAcct) visit(v Vertex) int {
 	idx := s.NextIndex
-	s.VertexIndex[v] = idx
+	s.VertexIndex[hashcode(v)] = idx
 	s.NextIndex++
 	s.push(v)
 	return idx
@@ -112,8 +114,9 @@ func (s *sccAcct) pop() Vertex {
 
 // inStack checks if a vertex is in the stack
 func (s *sccAcct) inStack(needle Vertex) bool {
+	h := hashcode(needle)
 	for _, n := range s.Stack {
-		if n == needle {
+		if hashcode(n) == h {
 			return true
 		}
 	}
